@@ -10,16 +10,18 @@ from common import Driver, DriverFailure, REPO
 LEVEL = "proof"
 MANIFEST = dict(
     text="The quantifier (every await point of discovery, of each handshake step, and steady state) is a finite table regenerated from the source together with the "
-         "teardown facts (what disconnect / discover / __aexit__ / facade.disconnect / the sequence pump do); the Lean theorems are kernel evaluations over the WHOLE "
-         "table: every background task terminates at every point (tasks_never_leak), no observer stays registered (no_observer_left), a reset outside the handshake is "
-         "clean, the endpoint leaks are EXACTLY the recorded ones (endpoint_leaks_exact), the pump dies exactly for resets inside _connect, cycles leak linearly; the full "
-         "statement is kept as NoLeakAtAnyPoint with the proof that it fails today and would hold for this table with the repaired facts. Tie: translator for points and "
-         "facts + correspondence at EVERY reachable await point of the real stack (manager + locator + spa + facade on the virtual loop against the real simulator): the "
-         "harness injects async_reset() / context exit exactly when the pump task's coroutine stack is at that point, lets the loop settle, and compares the ledger "
-         "(transports never closed, tasks alive, observers left, pump alive, callbacks on late datagrams) with the model's prediction.",
+         "teardown facts (what disconnect / discover / __aexit__ / facade.disconnect / _connect / the sequence pump do) and the step lists of the teardown procedures; "
+         "the Lean theorems are kernel evaluations over the WHOLE table: the FULL statement no_leak_at_any_point (at every point a reset or a context exit leaves no "
+         "endpoint open, no task alive, no observer registered, and the pump alive after a reset - it holds since the three fix: commits 54b7766 / a588de4 / 0bd0a89; "
+         "each_fix_is_needed keeps the witnesses), error_state_reset_is_clean (a reset issued from inside the spa's own ping-loop task, client handler yielding or not), "
+         "discover_finally_survives_second_cancel, bounded_over_cycles. Tie: translator for points, facts and step lists + correspondence at EVERY reachable await "
+         "point of the real stack (manager + locator + spa + facade on the virtual loop against the real simulator): the harness injects async_reset() / context exit "
+         "exactly when the pump task's coroutine stack is at that point - exits with a client handler that returns at once AND with one that really suspends - lets the "
+         "loop settle, and compares the ledger (transports never closed, tasks alive at the instant the exit returns and later, observers left, pump alive, handler "
+         "activity after the exit, callbacks on late datagrams) with the model's prediction.",
     note="partial: 'closed' = close() called on the transport object the loop handed out; await points inside the standard library are collapsed to the geckolib await that "
-         "contains them; error-path await points of _connect that a healthy handshake never reaches are predicted by the model but not exercised. Known findings D6 "
-         "(endpoints never closed on reset / exit / cancelled discovery; unbounded growth over cycles) and D8a (pump dies).",
+         "contains them; error-path await points of _connect that a healthy handshake never reaches are predicted by the model but not exercised; asyncio delivering a "
+         "pending cancellation at the next suspending await is assumed.",
     technique="Lean 4 kernel evaluation (decide) over the source-generated table of suspension points and teardown facts + crash-point injection on the real stack",
     design="5/C10")
 
@@ -120,15 +122,14 @@ def explore(inject_at=None, kind="reset", horizon=25.0, cycles=0, slow=False):
                 if kind == "reset":
                     # run the reset to completion right here, between two loop iterations, so that it lands exactly at this await point
                     # (it never really suspends: the client handler of this rig returns at once)
-                    coro = m.async_reset()
-                    try:
-                        coro.send(None)
-                        raise RuntimeError("async_reset suspended")
-                    except StopIteration:
-                        pass
-                    fut = loop.create_future()
-                    fut.set_result(None)
-                    st["task"] = fut
+                    # (as the first step of a real task, run right now: code that asks for the current task must find one; with
+                    #  the client handler of this rig it completes in that one step - if a changed tree makes it suspend, the
+                    #  task simply goes on under the loop and is awaited below)
+                    task = asyncio.tasks._PyTask(m.async_reset(), loop=loop)
+                    h = loop._ready.pop()
+                    h._run()
+                    st["task"] = task
+                    res["reset_suspended"] = not task.done()
                 else:
                     st["task"] = loop.create_task(m.__aexit__(None, None, None))
 
